@@ -1,17 +1,24 @@
 from props import COMMON_TRUSTED
 
 SPEC = {
-    "translators": ["tr_reader.py"],
+    "translators": ["tr_reader.py", "tr_depsize.py"],
     "harness": "c14",
     "cases": {"quick": 30000, "thorough": 600000},
     "profiles": {"quick": ["debug", "release"], "thorough": ["debug", "release"]},
     "trusted_base": COMMON_TRUSTED + [
         "translators/tr_reader.py (regenerates coq/Gen/ReaderPrims.v from src/binary/read.rs, src/size.rs on every run)",
+        "translators/tr_depsize.py (regenerates coq/Gen/DepSizes.v: the size(args) body of every impl ReadFixedSizeDep "
+        "of the crate as a typed expression; fails closed on a body that is not a plain expression)",
+        "coq/Model/DepSize.v lib_spec_size: the encoded size of the 17 record types, written from the table layouts "
+        "(tied to the records' read_dep by correspondence)",
         "modelled, not verified: Rust slice semantics (get_unchecked on an in-range index reads that byte), "
         "the trait plumbing that routes ctxt.read::<T>() to check_avail(T::SIZE)+read_unchecked (shape-checked by the translator)",
     ],
     "assumptions": [
         "buffers are shorter than 2^64 bytes (Rust slices are at most isize::MAX long)",
+        "usize-typed count arguments of dependent records (class2Count, markClassCount) are driven up to 65535 and the "
+        "theorem is stated for counts whose record size is a usize (every caller widens a uint16); value formats are "
+        "<= 0xFF (ValueFormat::read rejects the rest, the field is private)",
         "operation arguments are usize values; element types are non-empty tuples of the nine primitives; "
         "dependent records are sequences of 0-8 primitives read field by field",
         "read_to_vec is driven on arrays of at most 4096 declared items and Debug on at most 1000 (both walk / "
@@ -27,6 +34,12 @@ SPEC = {
             "from in-range, boundary (len+-2) and usize-extreme classes; after every operation the positions "
             "(cursor remaining/base, scope base/length) are compared; iterators are pulled at most 1000 times so "
             "that an endless one is a wrong count, not a hang; distinct = distinct (buffer, program) inputs; a "
+            "one case in eight is of kind `lib` (M|lib|Type|args|n|buflen): one of the crate's 17 ReadFixedSizeDep record "
+            "types, arguments swept over the extremes of their type (u16 counts 0, 1, the halves / thirds / quarters / "
+            "fifths / sixths of 65536 +-1, 65535; all 256 value formats), n in 0, 1, 2, few, many, buffer exactly / one "
+            "byte short / one record short / longer: size(args), the bytes one read_dep consumes, k read_dep in a row, "
+            "the cursor advance and len() of read_array_dep, read_item(0 / n-1), iter_res are reported and judged "
+            "against each other (model-independent) and against the model; "
             "case is counted non-trivial when distinct; class histogram keys are the set of result kinds "
             "(ok/er/pa/oo) + the operation groups exercised (C cache, S scope reads, D dependent arrays, W cow)",
 }
